@@ -46,7 +46,8 @@ def main():
     c = vf.Check("C41", "model_checking")
     vf.build("hooks")
     h = vf.build_harness("hooks", "strutils")
-    shards = vf.JOBS
+    shards = 8                               # harness processes per family
+    vshards = 8 if c.thorough else 6         # TLC validation runs (vf limits concurrent JVMs machine-wide)
     all_events, predicted, fam_rows = [], [], []
     for (name, fns, toks, mx, my) in (THOROUGH if c.thorough else QUICK):
         cfg = os.path.join(c.workdir, "StrUtils-%s.cfg" % name)
@@ -69,7 +70,7 @@ def main():
                 evs.append(ev)
             return evs, json.loads(r.out.strip().splitlines()[-1])
 
-        res = vf.pmap(shard, range(shards))
+        res = vf.pmap(shard, range(shards), jobs=shards)
         evs = [e for (es, _) in res for e in es]
         pairs = set((tuple(e["x"]), tuple(e["y"])) for e in evs)
         # binding of the explored spaces: the harness must have visited exactly the model's pair space
@@ -100,9 +101,9 @@ def main():
     chosen = set(id(e) for e in directed)
     rest = [e for e in all_events if id(e) not in chosen]
     results = [(directed, c.validate("StrUtilsTrace.tla", "StrUtilsTrace.cfg", directed, case_of=case_of))] if directed else []
-    n = max(1, (len(rest) + shards - 1) // shards)
+    n = max(1, (len(rest) + vshards - 1) // vshards)
     chunks = [rest[i:i + n] for i in range(0, len(rest), n)]
-    results += vf.pmap(lambda ch: (ch, c.validate("StrUtilsTrace.tla", "StrUtilsTrace.cfg", ch, case_of=case_of)), chunks)
+    results += vf.pmap(lambda ch: (ch, c.validate("StrUtilsTrace.tla", "StrUtilsTrace.cfg", ch, case_of=case_of)), chunks, jobs=vshards)
     # summaries of what TLC said (recorded, not judged here)
     verdicts, follows = {}, {"pinned": 0, "corrected": 0, "neither": 0}
     for ch, r in results:
